@@ -746,7 +746,7 @@ func encodersReadOnly(c *cx, id string, in func(f *eng.Fn) bool) int {
 						continue
 					}
 					s := f.Norm(d.RHS, &d.At)
-					if strings.HasPrefix(s, "&recv.") || strings.HasPrefix(s, "&recv[") || s == "recv" || s == "&recv" {
+					if strings.HasPrefix(s, "&recv.") || strings.HasPrefix(s, "&recv[") || strings.HasPrefix(s, "&rangeval(recv.") || strings.HasPrefix(s, "&rangeval(rangekey(recv.") || s == "recv" || s == "&recv" {
 						shared = "the receiver (through " + f.LocalName(root) + " = " + s + ")"
 					} else if strings.HasPrefix(s, "recv.") {
 						if t := f.Info().TypeOf(d.RHS); t != nil {
